@@ -112,6 +112,47 @@ def retry_case(item):
         shutil.rmtree(root, ignore_errors=True)
 
 
+def stopiter_case(item):
+    """a row step in front of the checkpoint fails at row j with StopIteration (a bare next() that finds nothing) - the one exception
+    class an iterator protocol may mistake for the end of the stream.  The run must fail, no checkpoint may be published, and the next
+    (fresh) run recomputes from the sources and returns what an uninterrupted run returns."""
+    import contextlib
+    import io
+    import shutil
+    import tempfile
+    from dataflows import Flow, checkpoint
+    setup_repo()
+    shape, j = item['shape'], item['at']
+    root = tempfile.mkdtemp(prefix='c08s-', dir=tlc.WORK_ROOT)
+    try:
+        def lists():
+            return [[dict(r=r, k=k, v='x%d' % k) for k in range(1, n + 1)] for r, n in enumerate(shape, start=1)]
+        state = {'n': 0}
+
+        def stopper(row):
+            state['n'] += 1
+            if state['n'] == j:
+                next(iter(()))
+        with contextlib.redirect_stdout(io.StringIO()), contextlib.redirect_stderr(io.StringIO()):
+            ref = result_of(Flow(*lists(), checkpoint('ref', checkpoint_path=root)))
+            try:
+                Flow(*lists(), stopper, checkpoint('cp', checkpoint_path=root)).results()
+                failed = False
+            except Exception:
+                failed = True
+            published = os.path.exists(os.path.join(root, 'cp', 'stream.ndjson'))
+            if not failed:
+                return dict(ok=False, why='a run whose row step raised StopIteration at row %d returned normally' % j, checkpoint_published=published)
+            if published:
+                return dict(ok=False, why='the failed run left a checkpoint under its final name')
+            second = result_of(Flow(*lists(), checkpoint('cp', checkpoint_path=root)))
+            if second != ref:
+                return dict(ok=False, why='the run after the failed one does not return what an uninterrupted run returns')
+        return dict(ok=True)
+    finally:
+        shutil.rmtree(root, ignore_errors=True)
+
+
 def result_of(flow):
     res, dp, _ = flow.results()
     return canon(dict(resources=[dict(name=r['name'], schema=r['schema']) for r in dp.descriptor.get('resources', [])],
@@ -283,6 +324,14 @@ def run():
         rep.mark_distinct(dict(retry=it))
         if not out['ok']:
             rep.violation(dict(retry=it), dict(case=it, **{k_: v for k_, v in out.items() if k_ != 'ok'}), category='retry-same-flow/%s' % out['why'][:40])
+    sitems = [dict(stopiter=True, shape=s, at=j) for s in shapes if sum(s) > 1 for j in sorted({1, 2, sum(s)})]
+    for it, out in zip(sitems, pmap(stopiter_case, sitems, chunksize=2)):
+        if '__harness_error__' in out:
+            raise tlc.MachineryError('harness error in StopIteration cases: ' + out['__harness_error__'])
+        rep.count(1, traces=1)
+        rep.mark_distinct(it)
+        if not out['ok']:
+            rep.violation(it, dict(case=it, **{k_: v for k_, v in out.items() if k_ != 'ok'}), category='stopiteration-before-checkpoint/%s' % out['why'][:40])
     verd = validate(rep, traces)
     # the binding binds: a recorded interruption whose follow-up run "resumed" although no checkpoint was published, and one
     # whose operation log lost an entry, must be rejected
@@ -318,6 +367,12 @@ def run():
 def replay(path):
     setup_repo()
     rec = json.load(open(path))
+    if rec['case'].get('stopiter'):
+        out = stopiter_case(rec['case'])
+        print(out)
+        if not out['ok']:
+            print('VIOLATION property=%s replay=%s' % (PROP, path))
+        return 0 if out['ok'] else 1
     if 'retry' in rec['case']:
         out = retry_case(rec['case']['retry'])
         print(out)
